@@ -59,3 +59,35 @@ Print Assumptions C15_health_every_connection.
 (* one accept per edge-triggered event (the behaviour before the fix) leaves connections unanswered *)
 Example C15_one_accept_per_event_refuted : health_run false 0 [20; 1; 1] = (3%nat, 19%nat).
 Proof. reflexivity. Qed.
+
+(* ---- tie to the source: the integer literals of the functions this property's model stands for
+   (private constants, bounds, unit factors; the files are SiteMap.files_C15) are today the ones the
+   model was written against. Gen/Sites.v num_literals is regenerated from /repo on every run; a
+   changed, added or removed number in a modelled function breaks this obligation ---- *)
+Require RV.Gen.Sites RV.Model.SiteMap.
+Theorem C15_literals_reviewed : RV.Model.SiteMap.literals_ok RV.Model.SiteMap.files_C15.
+Proof. repeat constructor. Qed.
+Print Assumptions C15_literals_reviewed.
+
+(* with the listener registered edge-triggered, ANY fixed bound on the accepts per readiness event
+   loses connections: a burst of k+1 connections folded into one event, then silence, leaves one
+   connection unanswered for ever (no further event is raised for it); only accepting until
+   WouldBlock (cap = None, the code as it is: C15_health_every_connection) answers them all *)
+Theorem C15_bounded_accepts_refuted :
+  forall k, health_run_cap (Some k) 0 [S k] = (k, 1%nat).
+Proof.
+  intro k. cbn [health_run_cap health_event_cap Nat.add].
+  assert (Hm : Nat.min k (S k) = k) by (apply PeanoNat.Nat.min_l; apply PeanoNat.Nat.le_succ_diag_r).
+  rewrite Hm.
+  assert (Hs : (S k - k)%nat = 1%nat) by (rewrite PeanoNat.Nat.sub_succ_l by apply PeanoNat.Nat.le_refl; rewrite PeanoNat.Nat.sub_diag; reflexivity).
+  rewrite Hs, PeanoNat.Nat.add_0_r. reflexivity.
+Qed.
+Print Assumptions C15_bounded_accepts_refuted.
+
+Theorem C15_unbounded_accepts_is_health_run :
+  forall backlog bursts, health_run_cap None backlog bursts = health_run true backlog bursts.
+Proof.
+  intros backlog bursts. revert backlog. induction bursts as [|b r IH]; intro backlog; [reflexivity|].
+  cbn [health_run_cap health_run health_event_cap health_event]. rewrite IH. reflexivity.
+Qed.
+Print Assumptions C15_unbounded_accepts_is_health_run.
